@@ -21,6 +21,9 @@ type c10Case struct {
 	WB     int    `json:"wb"`
 	W      int    `json:"w"`
 	WT, WF int    // branch widths for less
+	// Spare: the operand constants are narrowed from wider ones: their byte slices have spare
+	// capacity holding non-zero bytes (a legal form that Const.WithWidth produces)
+	Spare bool `json:"spare,omitempty"`
 }
 
 func hexInt(s string) *big.Int {
@@ -34,8 +37,23 @@ func hexInt(s string) *big.Int {
 var opByName = map[string]expr.BinaryOp{"add": expr.Add, "lsh": expr.Lsh, "rsh": expr.Rsh, "mul": expr.Mul, "div": expr.Div, "nand": expr.Nand}
 
 func c10Run(c c10Case) *eng.Fail {
+	f := c10Run1(c)
+	if f != nil && c.Spare {
+		f.Sig += " (operands with spare capacity)"
+	}
+	return f
+}
+
+func c10Run1(c c10Case) *eng.Fail {
 	a, b := hexInt(c.A), hexInt(c.B)
 	ca, cb := ir.Const(a, expr.Width(c.WA)), ir.Const(b, expr.Width(c.WB))
+	if c.Spare {
+		wide := func(k expr.Const) expr.Const {
+			bs := append(append([]byte{}, k.Bytes()...), 0xa5, 0x5a, 0xc3, 0x3c, 0x99, 0x66, 0xf0, 0x0f)
+			return expr.NewConst(bs, expr.Width(len(bs))).WithWidth(k.Width())
+		}
+		ca, cb = wide(ca), wide(cb)
+	}
 	w := expr.Width(c.W)
 	var e expr.Expr
 	var exp *big.Int
@@ -80,7 +98,7 @@ func c10Run(c c10Case) *eng.Fail {
 func init() {
 	allOps := []string{"add", "lsh", "rsh", "mul", "div", "nand", "less"}
 	checks["C10"] = eng.Check{
-		Rule:        "ConstFold of every operator (+ Less) on constants: ALL 65536 operand pairs at widths (1,1,1); all byte-pattern operands {00,01,7f,80,ff}^w for operand/operation widths in {1,2,3}^3; boundary alphabets and every shift amount 0..8w+9, 2^64, 2^64+1 at widths {4,8,9,16,17,32,255} with narrower/equal/wider operands. Non-trivial = case whose exact result is neither 0 nor equal to the first operand.",
+		Rule:        "ConstFold of every operator (+ Less) on constants: ALL 65536 operand pairs at widths (1,1,1); all byte-pattern operands {00,01,7f,80,ff}^w for operand/operation widths in {1,2,3}^3; boundary alphabets and every shift amount 0..8w+9, 2^64, 2^64+1 at widths {4,8,9,16,17,32,255} with narrower/equal/wider operands; the byte-pattern cases also with operand constants narrowed from wider ones (byte slices with non-zero spare capacity). Non-trivial = case whose exact result is neither 0 nor equal to the first operand.",
 		Assumptions: []string{"oracle: math/big arithmetic following the documented width rules of pkg/expr"},
 		Run: func(r *eng.Run) {
 			do := func(c c10Case) {
@@ -132,6 +150,14 @@ func init() {
 					for _, b := range ir.BytePatterns(expr.Width(cb.wb), alpha) {
 						for _, op := range allOps {
 							c := c10Case{Op: op, A: a.Text(16), B: b.Text(16), WA: cb.wa, WB: cb.wb, W: cb.w, WT: cb.wa, WF: cb.wb}
+							if cs := c; true {
+								cs.Spare = true
+								if f := c10Run(cs); f != nil {
+									r.Report(f)
+									r.Outcome(f.Sig)
+								}
+								r.Eval(1)
+							}
 							do(c)
 							nontriv(c)
 						}
